@@ -1,9 +1,94 @@
 N = {"quick": 400, "thorough": 12000}
 EXHAUSTIVE = {"quick": False, "thorough": True}
-RULE = "tbd"
-ASSUMPTIONS = []
-SOURCE_FILES = ["barter-data/src/books/mod.rs", "barter-data/src/books/manager.rs", "barter-data/src/books/map.rs", "barter-data/src/subscription/book.rs"]
+RULE = ("random cases: 8 % exercise Level's derived Ord / PartialEq (2-8 pairs over 8 values incl. 0, 0.0, 1, 1.0, negatives; cmp, ==, <, <=, >, >=, "
+        "max, min, partial_cmp, Vec::sort of 0-12 levels); 92 % allocate 1-4 Arc<RwLock<OrderBook>> cells (OrderBook::default() or OrderBook::new on a "
+        "clean or an arbitrary body: 0-12 (thorough 0-16) unsorted levels per side over a grid of 2-7 (thorough 2-10) prices at 6 scales incl. negative "
+        "prices, 10/30/60 % zero amounts written 0 / 0.0 / 0.000, duplicate prices; time_engine absent, 0, -1 ms or one of 5 close timestamps), build an "
+        "OrderBookMapSingle or an OrderBookMapMulti from 0-5 (key, cell) pairs (repeated keys, several keys sharing one cell, unmapped cells), query keys() "
+        "and find() for every candidate key and an unknown one, then queue 1-25 (thorough 1-40) stream items - Update (90 %) or Snapshot (10 %, clean or "
+        "arbitrary) events built with OrderBook::new for a candidate key or a never-configured key, Reconnecting notices - interleaved with "
+        "OrderBookMapMulti::insert, snapshot(depth) for depth in {0,1,2,3,5,100} and runs of the real OrderBookL2Manager::run (10/35/100 % after each "
+        "item; over stream::iter or over an unbounded channel fed by a concurrent producer task on a current-thread tokio runtime; the manager owns a "
+        "clone of the map, the books are read through the original handles afterwards, every cell is printed after every run, and later runs continue "
+        "from the books the earlier ones left). 12 % of the cases use long books (24-48, thorough 24-70 distinct prices per side) so that the binary "
+        "search runs over many levels. thorough additionally enumerates, for bids and for asks, every base side of <= 4 levels over 3 prices "
+        "(duplicates allowed, amounts distinct by position) x one upserted level over 7 prices x {delete, set} (3 388 cases). A case is distinct by "
+        "the SHA-1 of its op lines and non-trivial when the implementation's observation block changes at least once")
+ASSUMPTIONS = [
+    "slice::binary_search_by is modelled by a transcription of the loop of core::slice (std >= 1.82: size halving without early exit, base moves right "
+    "unless the probe compares Greater, one final comparison); std documents the hit among equal elements as unspecified - the transcription fixes it "
+    "to the last equal level, which the correspondence checks on duplicate-price books on every run (the exhaustive tier enumerates all of them up to "
+    "4 levels). Nothing proved about strictly ordered books depends on that choice (binary_search_is_scan)",
+    "sort_unstable_by is modelled as a stable sort. Proved: for input with pairwise distinct prices every sorting algorithm gives the model's result, "
+    "and for any input the price sequence is determined (new_sort_determined); only the order among equal-priced levels is the algorithm's choice - "
+    "std's unstable sort is an insertion sort (stable) up to 20 elements, and the generators keep every level list that may contain a duplicate price "
+    "at <= 16 levels (longer lists have distinct prices)",
+    "the constructor does not de-duplicate prices and does not drop zero amounts (its documentation promises only sorting): "
+    "OrderBook::new(1, None, [(100,1),(100,2)], []) holds two bid levels at 100, later updates act on only one of them, only a Snapshot clears the "
+    "duplicate; OrderBook::new(1, None, [], [(101,0)]) holds an ask of amount 0 which is the best ask. C05's strict invariant therefore needs clean "
+    "Snapshot / constructor input (reachable_well_formed); for arbitrary input the weak order, the per-price level counts and the price bag are "
+    "proved instead (reachable_weakly_ordered, upsert_level_counts, manager_refines_spec)",
+    "Decimal is an exact rational; volume_weighed_mid_price is compared to 1e-18 and its Decimal division by zero (two best levels with amounts summing "
+    "to 0: only after a zero-amount constructor input, or with negative amounts) is modelled as a panic; generated amounts are >= 0, prices may be negative",
+    "time_engine is an integer number of milliseconds (DateTime<Utc> range and sub-millisecond precision not modelled)",
+    "Arc<RwLock<OrderBook>> cells are indices into a list of books; the manager is run on a current-thread runtime over a finite stream, so lock "
+    "contention with concurrent readers / writers and fairness are not modelled; tracing output (warn on Reconnecting / unknown instrument, debug on "
+    "deleting an absent level) is not observed",
+    "FnvHashMap is an association list with one entry per key (insert replaces); the iteration order of keys() is unspecified in Rust and is compared "
+    "sorted",
+    "init_multi_order_book_l2_manager (needs live exchange connections) is modelled only as far as its map construction goes (multiOf: later "
+    "duplicate keys win, every book starts as OrderBook::default()) and is not driven; serde (de)serialisation of OrderBook / Level is out of scope",
+    "there is no OrderBookSide::best() / OrderBookSide::new() in this tree: best = levels().first() (what mid_price uses), construction = "
+    "OrderBookSide::bids / ::asks",
+]
+SOURCE_FILES = ["barter-data/src/books/mod.rs", "barter-data/src/books/manager.rs", "barter-data/src/books/map.rs",
+                "barter-data/src/subscription/book.rs"]
+
+_CLAUSE = [("snap", "depth_snapshot"), ("mid", "mid_price"), ("def", "default_book"), ("found", "map_find"), ("keys", "map_keys"),
+           ("cmp", "level_order"), ("eq", "level_order"), ("rel", "level_order"), ("max", "level_order"), ("min", "level_order"),
+           ("sorted", "level_sort"), ("ev", "constructor"), ("bp", "price_sequence"), ("ap", "price_sequence"), ("bb", "best_level"),
+           ("ba", "best_level"), ("vw", "volume_weighted_mid_price"), ("h", "sequence_and_time_of_last_event"), ("b", "levels"), ("a", "levels")]
+
+
+def signature(ops, k, key, impl_line, spec_line):
+    op = ops[k].split()[0] if k < len(ops) else "?"
+    clause = key
+    for prefix, name in _CLAUSE:
+        if key == prefix or (key.startswith(prefix) and key[len(prefix):].isdigit()):
+            clause = name
+            break
+    return f"clause={clause} op={op}"
+
+
 CLAIM = False
-TECHNIQUE = "tbd"
-LEVEL_TEXT = "tbd"
-LEVEL_NOTE = "tbd"
+TECHNIQUE = ("Lean 4: loop invariant of the transcribed slice::binary_search_by; list surgery characterisation of upsert_single; equality with the "
+             "C05 scan model on strictly ordered sides; weak-order / level-count / price-bag invariants for arbitrary constructor input by induction "
+             "over histories and over the inductively defined set of reachable books; per-cell fold of OrderBookL2Manager::run over shared cells "
+             "(frame, per-instrument, concatenation); refinement to an executable per-cell specification; correspondence with the real Level, "
+             "OrderBook, OrderBookMapSingle/Multi and OrderBookL2Manager on a tokio runtime")
+LEVEL_TEXT = ("Proof (sub-check of C05). Lean theorems over the model of lean/BarterModel/Model/BookManager.lean (Props/C05M.lean), all full strength "
+              "(no _partial), for all level lists (unsorted, duplicate prices, zero amounts), maps (keys may share cells) and finite streams: "
+              "Level's derived order is the lexicographic order on (price, amount), lawful, consistent with ==, max/min are bounds "
+              "(level_order_is_lexicographic, level_order_lawful, level_max_min, level_sort_determined); the transcribed binary_search_by returns the "
+              "last equal level or the unique insertion point on every weakly ordered side (binary_search_correct) and upsert_single with it equals "
+              "the C05 scan model on strictly ordered sides, turning C05's scan assumption into a theorem (binary_search_is_scan, agrees_with_c05_model); "
+              "weak order and the per-price level counts of the four documented scenarios hold on every side (upsert_keeps_weak_order, "
+              "upsert_level_counts); OrderBook::new keeps exactly the given levels in weak book order for every input, is strict iff the input prices are "
+              "distinct, is determined by its specification and idempotent (new_any_input, new_strict_iff_input_distinct, new_sort_determined, "
+              "new_idempotent); a Snapshot replaces all four fields and makes earlier history irrelevant, an Update copies sequence and time_engine "
+              "(update_snapshot, update_update, snapshot_resets_history, fields_of_last_event); every book reachable through the public API is weakly "
+              "ordered, and well-formed when constructor / Snapshot input is clean (reachable_weakly_ordered, reachable_well_formed, "
+              "strict_iff_weak_and_distinct); snapshot(depth) is the prefix, composes to the smaller depth, best = head is an extremum "
+              "(snapshot_is_prefix, snapshot_laws, best_is_extremum); OrderBookMapSingle/Multi find / keys / insert laws (single_map, multi_insert, "
+              "multi_of_pairs, keys_iff_find); the manager: the book of a cell after any stream is the fold of exactly the events resolving to it, per "
+              "instrument when no cell is shared, unknown instruments and Reconnecting change nothing, runs concatenate, all books keep the weak (resp. "
+              "C05) invariant and are C05 runs in C05's domain (manager_per_cell, manager_per_instrument, manager_frame, manager_resumes, "
+              "manager_keeps_invariants, manager_cell_is_c05_run); refinement of books and of the whole manager to the executable per-cell "
+              "specification - copied fields, price bag in book order, mid-price, and the C05 map specification while clean (spec_of_new, "
+              "spec_observables, manager_refines_spec, spec_initial). The model is tied to the code by running the same cases through the real code "
+              "on every run.")
+LEVEL_NOTE = ("Trusted: Lean kernel; axioms propext/Classical.choice/Quot.sound only; the hand-written model incl. the transcription of "
+              "core::slice::binary_search_by (sampled correspondence: 400 quick / 12k random + 3 388 small-scope exhaustive thorough); harness, driver, "
+              "orchestrator. Not a contradiction of the documentation but worth knowing: OrderBook::new neither de-duplicates nor drops zero-amount "
+              "levels, and an upsert touches only one of several equal-priced levels. Exact rationals instead of rust_decimal; lock contention, "
+              "tracing output, serde and init_multi_order_book_l2_manager's network part not modelled.")
